@@ -1,10 +1,12 @@
-From FlexVerif Require Import Base.Prelude Model.CamGen Model.VamGen.
+From FlexVerif Require Import Base.Prelude Model.CamGen Model.VamGen Model.CamPath.
 Require Extraction.
 Require Import ExtrOcamlBasic.
 Extraction Language OCaml.
 
-(* cmd 1: CAM op stream (see Model/CamGen.v)   cmd 2: VAM report stream (see Model/VamGen.v) *)
+(* cmd 1: CAM op stream (see Model/CamGen.v)   cmd 2: VAM report stream (see Model/VamGen.v)
+   cmd 3: path-history stream of the CAM low-frequency container (see Model/CamPath.v) *)
 Definition dispatch (cmd : Z) (a : list Z) : list Z :=
-  if cmd =? 1 then cam_dispatch a else if cmd =? 2 then vam_dispatch a else [].
+  if cmd =? 1 then cam_dispatch a else if cmd =? 2 then vam_dispatch a
+  else if cmd =? 3 then path_dispatch a else [].
 
 Extraction "c10_model.ml" dispatch.
